@@ -5,6 +5,7 @@ package engine
 
 import (
 	"bytes"
+	"context"
 	"crypto/sha256"
 	"encoding/hex"
 	"fmt"
@@ -206,6 +207,11 @@ var ErrTransport = fmt.Errorf("verif: injected transport error")
 
 // ErrAWS500 is an AWS-style service error that is not NoSuchKey.
 func ErrAWS500() error { return awserr.New("InternalError", "verif: injected 500", nil) }
+
+// ErrCtx is what the SDK returns when the request context has expired.
+func ErrCtx() error {
+	return awserr.New(request.CanceledErrorCode, "request context canceled", context.DeadlineExceeded)
+}
 
 // ErrCrashed is returned for every request after a simulated crash.
 var ErrCrashed = fmt.Errorf("verif: process crashed")
